@@ -6,12 +6,23 @@
   The theorems below are about the mechanism whose damage the property is meant to expose:
   the reduced solve with τ elimination, the affine residual contraction of a step, the
   centring rule and the complementarity update.  [F] = exact arithmetic in an ordered field.
+
+  Round 3: every theorem also has an `…_array` corollary on the executable `Array` functions of
+  `ClarabelModel/Step.lean` / `KktSystem.lean` (the ones tied bit-for-bit to the Rust code); the
+  combined step is shown to satisfy the linearised complementarity equation on second-order cones
+  (with C13's operators), in abstract form for any symmetric cone (PSD), and the `Δs` equation
+  of the exponential / power cones; the exact per-step update of `μ` and its decrease are
+  proved for every symmetric cone (`mu_update_sum`, `mu_decrease`, `newton_step_orthogonality`).
 -/
 import ClarabelModel.Step
 import ClarabelModel.KktSystem
 import ClarabelProofs.Lemmas.StepNewton
 import ClarabelProofs.Lemmas.StepBridge
 import ClarabelProofs.Lemmas.ScalarInst
+import ClarabelProofs.Lemmas.StepArray
+import ClarabelProofs.Lemmas.StepProgress
+import ClarabelProofs.Lemmas.StepSoc
+import ClarabelProofs.Lemmas.StepCones
 import Mathlib.Tactic.NormNum
 import Mathlib.Tactic.Positivity
 
@@ -344,5 +355,600 @@ example : ∃ lhs wx wz,
     #[1] #[1] ⟨#[0], #[1], #[1], 1, 1⟩ ⟨#[1], #[1], #[1], 1, 1⟩ #[1] #[1] #[1] #[0] #[-1]
     rfl rfl rfl rfl rfl rfl rfl rfl rfl rfl
   exact ⟨lhs, wx, wz, h⟩
+
+/-! ## Round 3: the theorems above, stated on the executable `Array` functions
+
+`Step.updateScaling`, `Step.affineStepRhs`, `Step.combinedStepRhs`, `KktSystem.solveNN`
+(τ elimination), `Step.addStep`, `Step.calcMu` are the functions the `step.*` / `kkt.solve`
+channels compare bit-for-bit with `variables.rs` / `kktsystem.rs`.  Over ℝ (the nonnegative
+cone scaling takes square roots) they are the dense operators of the theorems above; the
+hypotheses are sizes, an interior iterate, exactness of the two reduced linear solves (the
+linear solver is an input of the model, C09) and the contract of `_csc_quad_form`. -/
+section array
+variable {n m : ℕ}
+
+/-- [R] **`reduced_solve_is_newton` on the executable functions.**  For a product of zero and
+nonnegative cones (`mask`), with the scaling `w` that `update_scaling(s, z)` computes, the
+step returned by `KktSystem.solveNN` (the model of `DefaultKKTSystem::solve`, either direction)
+on exact reduced solves is the full Newton step with `Hs = diag(s/z)` (`Lemmas.Hnn`) and
+`Δs_const_term = s` (affine) resp. `rhs.s / z` (combined) (`Lemmas.dsConstFn`). -/
+theorem reduced_solve_is_newton_array (P : Matrix (Fin n) (Fin n) ℝ) (hP : Pᵀ = P)
+    (A : Matrix (Fin m) (Fin n) ℝ) (Pc : Csc ℝ)
+    (hqf : ∀ a b : Array ℝ, a.size = n → b.size = n →
+      KktSystem.quadForm Pc a b = .ok (toFn a n ⬝ᵥ P *ᵥ toFn b n))
+    (mask : List Bool) (q b : Array ℝ) (vars rhs : Vars ℝ) (affine : Bool) (x1 z1 x2 z2 : Array ℝ)
+    (hm : mask.length = m) (hq : q.size = n) (hb : b.size = m) (hvx : vars.x.size = n)
+    (hvs : vars.s.size = m) (hvz : vars.z.size = m) (hrx : rhs.x.size = n) (hrs : rhs.s.size = m)
+    (hrz : rhs.z.size = m) (hx1 : x1.size = n) (hz1 : z1.size = m) (hx2 : x2.size = n)
+    (hz2 : z2.size = m) (hτ : vars.τ ≠ 0) (hint : NNInterior mask vars.s vars.z m)
+    (h1x : P *ᵥ toFn x1 n + Aᵀ *ᵥ toFn z1 m = toFn rhs.x n)
+    (h1z : A *ᵥ toFn x1 n - Hnn mask vars.s vars.z m *ᵥ toFn z1 m
+      = dsConstFn mask vars rhs affine m - toFn rhs.z m)
+    (h2x : P *ᵥ toFn x2 n + Aᵀ *ᵥ toFn z2 m = -toFn q n)
+    (h2z : A *ᵥ toFn x2 n - Hnn mask vars.s vars.z m *ᵥ toFn z2 m = toFn b m)
+    (hden : KktSystem.tauDen vars.κ vars.τ (toFn q n ⬝ᵥ toFn x2 n) (toFn b m ⬝ᵥ toFn z2 m)
+        (((-1 : ℝ) • toFn x2 n + (1 : ℝ) • ((1 / vars.τ) • toFn vars.x n)) ⬝ᵥ
+          P *ᵥ ((-1 : ℝ) • toFn x2 n + (1 : ℝ) • ((1 / vars.τ) • toFn vars.x n)))
+        (toFn x2 n ⬝ᵥ P *ᵥ toFn x2 n) ≠ 0) :
+    ∃ lhs wx wz,
+      KktSystem.solveNN Pc mask (updateScaling mask vars.s vars.z).2 q b vars rhs affine x1 z1 x2 z2
+        = .ok (lhs, wx, wz)
+      ∧ lhs.x.size = n ∧ lhs.s.size = m ∧ lhs.z.size = m
+      ∧ IsNewtonStep P A (Hnn mask vars.s vars.z m) (toFn q n) (toFn b m) (toFn vars.x n) vars.τ
+          vars.κ (toFn rhs.x n) (toFn rhs.z m) rhs.τ (dsConstFn mask vars rhs affine m) rhs.κ
+          ⟨toFn lhs.x n, toFn lhs.s m, toFn lhs.z m, lhs.τ, lhs.κ⟩ := by
+  obtain ⟨hc, ec⟩ := dsConst_dense mask vars rhs affine hm hvs hvz hrs
+  have hH : ∀ v : Array ℝ, v.size = m → (mulHs mask (updateScaling mask vars.s vars.z).2 v).size = m
+      ∧ toFn (mulHs mask (updateScaling mask vars.s vars.z).2 v) m
+          = Hnn mask vars.s vars.z m *ᵥ toFn v m :=
+    fun v hv => mulHs_eq_Hnn mask vars.s vars.z v hm hvs hvz hv hint
+  obtain ⟨lhs, wx, wz, hrun, hN⟩ := solveAssemble_is_newton P hP A (Hnn mask vars.s vars.z m)
+    (KktSystem.quadForm Pc) (mulHs mask (updateScaling mask vars.s vars.z).2) hqf hH q b vars rhs
+    (if affine then vars.s else dsFromDzOffset mask rhs.s vars.z) x1 z1 x2 z2 hq hb hvx hrx hrz hc hx1
+    hz1 hx2 hz2 hτ h1x (by rw [ec]; exact h1z) h2x h2z hden
+  obtain ⟨s1, s2, s3⟩ := solveAssemble_sizes (KktSystem.quadForm Pc)
+    (mulHs mask (updateScaling mask vars.s vars.z).2) (fun v hv => (hH v hv).1) q b vars rhs _ x1 z1 x2
+    z2 hc hx1 hz1 hx2 hz2 lhs wx wz hrun
+  refine ⟨lhs, wx, wz, hrun, s1, s2, s3, ?_⟩
+  rw [← ec]; exact hN
+
+/-- [R] **`residual_contraction` on the executable functions**: one pass
+`update_scaling → affine_step_rhs → combined_step_rhs → solve(Combined) → add_step(α)` of the
+model, on exact reduced solves, multiplies the residuals `(rx, rz)` by `1 − α(1−σ)` and `rτ`
+likewise up to the exact `P`-remainder.  The affine step `stepa` that feeds the Mehrotra
+correction is arbitrary — the contraction does not depend on it. -/
+theorem residual_contraction_array (P : Matrix (Fin n) (Fin n) ℝ) (hP : Pᵀ = P)
+    (A : Matrix (Fin m) (Fin n) ℝ) (Pc : Csc ℝ)
+    (hqf : ∀ a b : Array ℝ, a.size = n → b.size = n →
+      KktSystem.quadForm Pc a b = .ok (toFn a n ⬝ᵥ P *ᵥ toFn b n))
+    (mask : List Bool) (q b rx rz : Array ℝ) (rτ : ℝ) (vars stepa rhs : Vars ℝ) (σ μ mm a : ℝ)
+    (x1 z1 x2 z2 : Array ℝ)
+    (hm : mask.length = m) (hq : q.size = n) (hb : b.size = m) (hvx : vars.x.size = n)
+    (hvs : vars.s.size = m) (hvz : vars.z.size = m) (hrx : rx.size = n) (hrz : rz.size = m)
+    (has : stepa.s.size = m) (haz : stepa.z.size = m)
+    (hx1 : x1.size = n) (hz1 : z1.size = m) (hx2 : x2.size = n)
+    (hz2 : z2.size = m) (hτ : vars.τ ≠ 0) (hint : NNInterior mask vars.s vars.z m)
+    (hrX : toFn rx n = resX P A (toFn q n) (toFn vars.x n) (toFn vars.z m) vars.τ)
+    (hrZ : toFn rz m = resZ A (toFn b m) (toFn vars.x n) (toFn vars.s m) vars.τ)
+    (hrT : rτ = resT P (toFn q n) (toFn b m) (toFn vars.x n) (toFn vars.z m) vars.τ vars.κ)
+    (hrhs : rhs = (combinedStepRhs mask (updateScaling mask vars.s vars.z).2
+      (affineStepRhs mask rx rz rτ (updateScaling mask vars.s vars.z).1 vars) rx rz rτ vars stepa
+      σ μ mm).1)
+    (h1x : P *ᵥ toFn x1 n + Aᵀ *ᵥ toFn z1 m = toFn rhs.x n)
+    (h1z : A *ᵥ toFn x1 n - Hnn mask vars.s vars.z m *ᵥ toFn z1 m
+      = dsConstFn mask vars rhs false m - toFn rhs.z m)
+    (h2x : P *ᵥ toFn x2 n + Aᵀ *ᵥ toFn z2 m = -toFn q n)
+    (h2z : A *ᵥ toFn x2 n - Hnn mask vars.s vars.z m *ᵥ toFn z2 m = toFn b m)
+    (hden : KktSystem.tauDen vars.κ vars.τ (toFn q n ⬝ᵥ toFn x2 n) (toFn b m ⬝ᵥ toFn z2 m)
+        (((-1 : ℝ) • toFn x2 n + (1 : ℝ) • ((1 / vars.τ) • toFn vars.x n)) ⬝ᵥ
+          P *ᵥ ((-1 : ℝ) • toFn x2 n + (1 : ℝ) • ((1 / vars.τ) • toFn vars.x n)))
+        (toFn x2 n ⬝ᵥ P *ᵥ toFn x2 n) ≠ 0) :
+    ∃ lhs wx wz,
+      KktSystem.solveNN Pc mask (updateScaling mask vars.s vars.z).2 q b vars rhs false x1 z1 x2 z2
+        = .ok (lhs, wx, wz)
+      ∧ (vars.τ + a * lhs.τ ≠ 0 →
+        resX P A (toFn q n) (toFn (addStep vars lhs a).x n) (toFn (addStep vars lhs a).z m)
+            (addStep vars lhs a).τ = (1 - a * (1 - σ)) • toFn rx n
+        ∧ resZ A (toFn b m) (toFn (addStep vars lhs a).x n) (toFn (addStep vars lhs a).s m)
+            (addStep vars lhs a).τ = (1 - a * (1 - σ)) • toFn rz m
+        ∧ resT P (toFn q n) (toFn b m) (toFn (addStep vars lhs a).x n)
+            (toFn (addStep vars lhs a).z m) (addStep vars lhs a).τ (addStep vars lhs a).κ
+          = (1 - a * (1 - σ)) * rτ
+            + a ^ 2 * ((toFn lhs.x n - lhs.τ • ((1 / vars.τ) • toFn vars.x n)) ⬝ᵥ
+                P *ᵥ (toFn lhs.x n - lhs.τ • ((1 / vars.τ) • toFn vars.x n)))
+              / (vars.τ + a * lhs.τ)) := by
+  obtain ⟨r1, r2, r3, e1, e2, e3, _, _⟩ :=
+    combinedStepRhs_dense (n := n) mask rx rz rτ vars stepa σ μ mm hm hrx hrz hvs hvz has haz hint
+  simp only [← hrhs] at r1 r2 r3 e1 e2 e3
+  obtain ⟨lhs, wx, wz, hrun, s1, s2, s3, hN⟩ := reduced_solve_is_newton_array P hP A Pc hqf mask q b
+    vars rhs false x1 z1 x2 z2 hm hq hb hvx hvs hvz r1 r2 r3 hx1 hz1 hx2 hz2 hτ hint h1x h1z h2x h2z hden
+  refine ⟨lhs, wx, wz, hrun, fun hτ' => ?_⟩
+  obtain ⟨_, _, _, ax, as', az, aτ, aκ⟩ := addStep_dense (n := n) (m := m) vars lhs a hvx s1 hvs s2 hvz s3
+  rw [e1, e2, e3, hrX, hrZ, hrT] at hN
+  have := residual_contraction P hP A (Hnn mask vars.s vars.z m) (toFn q n) (toFn b m) (toFn vars.x n)
+    (toFn vars.s m) (toFn vars.z m) vars.τ vars.κ σ a (dsConstFn mask vars rhs false m) rhs.κ
+    ⟨toFn lhs.x n, toFn lhs.s m, toFn lhs.z m, lhs.τ, lhs.κ⟩ hτ hτ' hN
+  rw [ax, as', az, aτ, aκ, hrX, hrZ, hrT]
+  exact this
+
+/-- [R] **`mu_update_nn` on the executable functions**: after one pass
+`update_scaling → affine_step_rhs → combined_step_rhs(σ, μ, m) → solve(Combined) → add_step(α)`
+of the model (zero + nonnegative cones, slack `0` on zero-cone rows, `μ = calc_mu`), on exact
+reduced solves, `calc_mu` of the new iterate is
+
+  `μ⁺ = (1 − α(1−σ)) μ − α m (Δsᵃ·Δzᵃ|ₙₙ + ΔτᵃΔκᵃ)/(ν+1) + α² (Δs·Δz + ΔτΔκ)/(ν+1)`,
+
+`ν = Cone::degree` = number of nonnegative rows. -/
+theorem mu_update_nn_array (P : Matrix (Fin n) (Fin n) ℝ) (hP : Pᵀ = P)
+    (A : Matrix (Fin m) (Fin n) ℝ) (Pc : Csc ℝ)
+    (hqf : ∀ a b : Array ℝ, a.size = n → b.size = n →
+      KktSystem.quadForm Pc a b = .ok (toFn a n ⬝ᵥ P *ᵥ toFn b n))
+    (mask : List Bool) (q b rx rz : Array ℝ) (rτ : ℝ) (vars stepa rhs : Vars ℝ) (σ μ mm a : ℝ)
+    (x1 z1 x2 z2 : Array ℝ)
+    (hm : mask.length = m) (hq : q.size = n) (hb : b.size = m) (hvx : vars.x.size = n)
+    (hvs : vars.s.size = m) (hvz : vars.z.size = m) (hrx : rx.size = n) (hrz : rz.size = m)
+    (has : stepa.s.size = m) (haz : stepa.z.size = m)
+    (hx1 : x1.size = n) (hz1 : z1.size = m) (hx2 : x2.size = n)
+    (hz2 : z2.size = m) (hτ : vars.τ ≠ 0) (hint : NNInterior mask vars.s vars.z m)
+    (hzero : ∀ i : Fin m, maskFn mask m i = false → toFn vars.s m i = 0)
+    (hμ : μ = calcMu (Vec.dot vars.s vars.z) vars.τ vars.κ (mask.count true))
+    (hrhs : rhs = (combinedStepRhs mask (updateScaling mask vars.s vars.z).2
+      (affineStepRhs mask rx rz rτ (updateScaling mask vars.s vars.z).1 vars) rx rz rτ vars stepa
+      σ μ mm).1)
+    (h1x : P *ᵥ toFn x1 n + Aᵀ *ᵥ toFn z1 m = toFn rhs.x n)
+    (h1z : A *ᵥ toFn x1 n - Hnn mask vars.s vars.z m *ᵥ toFn z1 m
+      = dsConstFn mask vars rhs false m - toFn rhs.z m)
+    (h2x : P *ᵥ toFn x2 n + Aᵀ *ᵥ toFn z2 m = -toFn q n)
+    (h2z : A *ᵥ toFn x2 n - Hnn mask vars.s vars.z m *ᵥ toFn z2 m = toFn b m)
+    (hden : KktSystem.tauDen vars.κ vars.τ (toFn q n ⬝ᵥ toFn x2 n) (toFn b m ⬝ᵥ toFn z2 m)
+        (((-1 : ℝ) • toFn x2 n + (1 : ℝ) • ((1 / vars.τ) • toFn vars.x n)) ⬝ᵥ
+          P *ᵥ ((-1 : ℝ) • toFn x2 n + (1 : ℝ) • ((1 / vars.τ) • toFn vars.x n)))
+        (toFn x2 n ⬝ᵥ P *ᵥ toFn x2 n) ≠ 0) :
+    ∃ lhs wx wz,
+      KktSystem.solveNN Pc mask (updateScaling mask vars.s vars.z).2 q b vars rhs false x1 z1 x2 z2
+        = .ok (lhs, wx, wz)
+      ∧ calcMu (Vec.dot (addStep vars lhs a).s (addStep vars lhs a).z) (addStep vars lhs a).τ
+          (addStep vars lhs a).κ (mask.count true)
+        = (1 - a * (1 - σ)) * μ
+          - a * mm * ((∑ i : Fin m, if maskFn mask m i then toFn stepa.s m i * toFn stepa.z m i else 0)
+              + stepa.τ * stepa.κ) / ((mask.count true : ℝ) + 1)
+          + a ^ 2 * (toFn lhs.s m ⬝ᵥ toFn lhs.z m + lhs.τ * lhs.κ) / ((mask.count true : ℝ) + 1) := by
+  obtain ⟨r1, r2, r3, _, _, _, eκ, es⟩ :=
+    combinedStepRhs_dense (n := n) mask rx rz rτ vars stepa σ μ mm hm hrx hrz hvs hvz has haz hint
+  simp only [← hrhs] at r1 r2 r3 eκ es
+  obtain ⟨lhs, wx, wz, hrun, s1, s2, s3, hN⟩ := reduced_solve_is_newton_array P hP A Pc hqf mask q b
+    vars rhs false x1 z1 x2 z2 hm hq hb hvx hvs hvz r1 r2 r3 hx1 hz1 hx2 hz2 hτ hint h1x h1z h2x h2z hden
+  refine ⟨lhs, wx, wz, hrun, ?_⟩
+  obtain ⟨_, n2, n3, _, as', az, aτ, aκ⟩ := addStep_dense (n := n) (m := m) vars lhs a hvx s1 hvs s2 hvz s3
+  rw [dot_toFn _ _ n2 n3, as', az, aτ, aκ, hμ, dot_toFn _ _ hvs hvz]
+  have hμ' : μ = calcMu (toFn vars.s m ⬝ᵥ toFn vars.z m) vars.τ vars.κ (mask.count true) := by
+    rw [hμ, dot_toFn _ _ hvs hvz]
+  -- rows of the complementarity block
+  have hrow : ∀ i : Fin m, toFn vars.s m i * toFn lhs.z m i + toFn vars.z m i * toFn lhs.s m i
+      = -(toFn vars.s m i * toFn vars.z m i
+          + mm * (if maskFn mask m i then toFn stepa.s m i * toFn stepa.z m i else 0)
+          - (if maskFn mask m i then σ * μ else 0)) := by
+    intro i
+    have h := congrFun hN.eq_s i
+    simp only [Hnn, Matrix.mulVec_diagonal, Pi.add_apply, Pi.neg_apply, dsConstFn, Bool.false_eq_true,
+      if_false] at h
+    by_cases hi : maskFn mask m i = true
+    · obtain ⟨p1, p2⟩ := hint i hi
+      simp only [hi, if_true] at h ⊢
+      have e := congrFun es i
+      simp only [hi, if_true] at e
+      rw [e] at h
+      field_simp at h
+      linear_combination h
+    · have hi' : maskFn mask m i = false := by simpa using hi
+      simp only [hi', Bool.false_eq_true, if_false, zero_mul, zero_add] at h ⊢
+      rw [hzero i hi', h]; ring
+  have hsum : toFn vars.s m ⬝ᵥ toFn lhs.z m + toFn vars.z m ⬝ᵥ toFn lhs.s m
+      = -(toFn vars.s m ⬝ᵥ toFn vars.z m
+          + mm * (∑ i : Fin m, if maskFn mask m i then toFn stepa.s m i * toFn stepa.z m i else 0)
+          - (mask.count true : ℝ) * (σ * μ)) := by
+    simp only [dotProduct, ← Finset.sum_add_distrib, hrow]
+    rw [← sum_mask_const' mask hm (σ * μ), Finset.mul_sum]
+    simp only [Finset.sum_neg_distrib, Finset.sum_sub_distrib, Finset.sum_add_distrib]
+  have hκ := hN.eq_κ
+  simp only [eκ] at hκ
+  rw [hμ'] at hsum hκ
+  rw [← hμ']
+  rw [hμ']
+  exact mu_update_of_sum (mask.count true) (toFn vars.s m) (toFn vars.z m) (toFn lhs.s m)
+    (toFn lhs.z m) vars.τ vars.κ lhs.τ lhs.κ σ mm a _ (stepa.τ * stepa.κ) hsum
+    (by rw [hκ]; ring)
+
+/-- non-vacuity of `reduced_solve_is_newton_array`, `residual_contraction_array` and
+`mu_update_nn_array` (their hypotheses are jointly satisfiable and the executable model returns a
+step): one nonnegative row, no `x` (`n = 0`, `m = 1`), `s = z = τ = κ = 1`, `b = (1)`, residuals
+`rz = (0)`, `rτ = 2`, arbitrary `σ`, `m`, `α`; `z2 = (−1)` solves the constant system and
+`z1 = rhs.z − rhs.s/z` the variable one (`Lemmas.exVars`, `exRhs`, `exPc`). -/
+example (σ mm a : ℝ) : ∃ lhs wx wz,
+    KktSystem.solveNN exPc [true] (updateScaling [true] exVars.s exVars.z).2 #[] #[1] exVars
+      (exRhs σ (calcMu (Vec.dot exVars.s exVars.z) exVars.τ exVars.κ ([true].count true)) mm) false #[]
+      #[toFn (exRhs σ (calcMu (Vec.dot exVars.s exVars.z) exVars.τ exVars.κ ([true].count true)) mm).z 1 0
+        - dsConstFn [true] exVars
+            (exRhs σ (calcMu (Vec.dot exVars.s exVars.z) exVars.τ exVars.κ ([true].count true)) mm)
+            false 1 0]
+      #[] #[-1] = .ok (lhs, wx, wz) := by
+  set μ := calcMu (Vec.dot exVars.s exVars.z) exVars.τ exVars.κ ([true].count true) with hμ
+  have hrX : toFn (#[] : Array ℝ) 0 = resX (0 : Matrix (Fin 0) (Fin 0) ℝ) (0 : Matrix (Fin 1) (Fin 0) ℝ)
+      (toFn #[] 0) (toFn exVars.x 0) (toFn exVars.z 1) exVars.τ := by funext i; exact i.elim0
+  have hrZ : toFn (#[0] : Array ℝ) 1 = resZ (0 : Matrix (Fin 1) (Fin 0) ℝ) (toFn #[1] 1) (toFn exVars.x 0)
+      (toFn exVars.s 1) exVars.τ := by
+    funext i; have : i = 0 := Subsingleton.elim _ _; subst this; simp [resZ, toFn, exVars]
+  have hrT : (2 : ℝ) = resT (0 : Matrix (Fin 0) (Fin 0) ℝ) (toFn #[] 0) (toFn #[1] 1) (toFn exVars.x 0)
+      (toFn exVars.z 1) exVars.τ exVars.κ := by
+    simp [resT, toFn, exVars, Matrix.mulVec, dotProduct]; norm_num
+  have h1z : (0 : Matrix (Fin 1) (Fin 0) ℝ) *ᵥ toFn #[] 0
+      - Hnn [true] exVars.s exVars.z 1 *ᵥ toFn #[toFn (exRhs σ μ mm).z 1 0
+          - dsConstFn [true] exVars (exRhs σ μ mm) false 1 0] 1
+      = dsConstFn [true] exVars (exRhs σ μ mm) false 1 - toFn (exRhs σ μ mm).z 1 := by
+    funext i; have : i = 0 := Subsingleton.elim _ _; subst this
+    simp [Hnn, maskFn, toFn, exVars]
+  have h2z : (0 : Matrix (Fin 1) (Fin 0) ℝ) *ᵥ toFn #[] 0
+      - Hnn [true] exVars.s exVars.z 1 *ᵥ toFn #[-1] 1 = toFn #[1] 1 := by
+    funext i; have : i = 0 := Subsingleton.elim _ _; subst this
+    simp [Hnn, maskFn, toFn, exVars]
+  have hden : KktSystem.tauDen exVars.κ exVars.τ (toFn #[] 0 ⬝ᵥ toFn #[] 0) (toFn #[1] 1 ⬝ᵥ toFn #[-1] 1)
+      (((-1 : ℝ) • toFn #[] 0 + (1 : ℝ) • ((1 / exVars.τ) • toFn exVars.x 0)) ⬝ᵥ
+        (0 : Matrix (Fin 0) (Fin 0) ℝ) *ᵥ ((-1 : ℝ) • toFn #[] 0 + (1 : ℝ) • ((1 / exVars.τ) • toFn exVars.x 0)))
+      (toFn #[] 0 ⬝ᵥ (0 : Matrix (Fin 0) (Fin 0) ℝ) *ᵥ toFn #[] 0) ≠ 0 := by
+    simp [KktSystem.tauDen, toFn, exVars, dotProduct]
+  -- the three theorems, on the same data
+  obtain ⟨lhs, wx, wz, h, _⟩ := residual_contraction_array (n := 0) (m := 1) 0 (by simp) 0 exPc exHqf
+    [true] #[] #[1] #[] #[0] 2 exVars exStepa (exRhs σ μ mm) σ μ mm a #[] _ #[] #[-1]
+    rfl rfl rfl rfl rfl rfl rfl rfl rfl rfl rfl rfl rfl rfl (by simp [exVars]) exInt hrX hrZ hrT rfl
+    (by funext i; exact i.elim0) h1z (by funext i; exact i.elim0) h2z hden
+  obtain ⟨lhs', _, _, h', _⟩ := mu_update_nn_array (n := 0) (m := 1) 0 (by simp) 0 exPc exHqf
+    [true] #[] #[1] #[] #[0] 2 exVars exStepa (exRhs σ μ mm) σ μ mm a #[] _ #[] #[-1]
+    rfl rfl rfl rfl rfl rfl rfl rfl rfl rfl rfl rfl rfl rfl (by simp [exVars]) exInt
+    (by intro i hi; simp [maskFn] at hi) hμ rfl
+    (by funext i; exact i.elim0) h1z (by funext i; exact i.elim0) h2z hden
+  exact ⟨lhs, wx, wz, h⟩
+
+end array
+
+section progress
+variable {α : Type} [Field α] [LinearOrder α] [IsStrictOrderedRing α] [FloatLike α]
+  [LawfulFloatLike α]
+
+/-- [F] **Exact progress of `μ` per step, every symmetric cone.**  If the step satisfies the
+linearised complementarity equation in aggregated form —
+`s·Δz + z·Δs = −(s·z + m·C − ν σμ)` (for a symmetric cone this is `⟨e, ·⟩` applied to
+`λ∘(WΔz + W⁻ᵀΔs) = σμe − λ∘λ − m (W⁻ᵀΔsᵃ)∘(WΔzᵃ)`, with `⟨e,e⟩ = ν`, `⟨e, u∘v⟩ = ⟨u,v⟩`,
+`C = Δsᵃ·Δzᵃ`) and `κΔτ + τΔκ = −(τκ + m·Cκ − σμ)` — then `calc_mu` after `add_step(α)` is
+
+  `μ⁺ = (1 − α(1−σ)) μ − α m (C + Cκ)/(ν+1) + α² (Δs·Δz + ΔτΔκ)/(ν+1)`. -/
+theorem mu_update_sum {k : ℕ} (ν : ℕ) (s z ds dz : Fin k → α) (τ κ dτ dκ σ mm a C Cκ : α)
+    (hsum : s ⬝ᵥ dz + z ⬝ᵥ ds
+      = -(s ⬝ᵥ z + mm * C - (ν : α) * (σ * calcMu (s ⬝ᵥ z) τ κ ν)))
+    (hκ : κ * dτ + τ * dκ = -(τ * κ + mm * Cκ - σ * calcMu (s ⬝ᵥ z) τ κ ν)) :
+    calcMu ((s + a • ds) ⬝ᵥ (z + a • dz)) (τ + a * dτ) (κ + a * dκ) ν
+      = (1 - a * (1 - σ)) * calcMu (s ⬝ᵥ z) τ κ ν
+        - a * mm * (C + Cκ) / ((ν : α) + 1) + a ^ 2 * (ds ⬝ᵥ dz + dτ * dκ) / ((ν : α) + 1) :=
+  mu_update_of_sum ν s z ds dz τ κ dτ dκ σ mm a C Cκ hsum hκ
+
+/-- [F] **Decrease of `μ`** (the mechanism behind "few iterations"): under the hypotheses of
+`mu_update_sum`, if the second-order term is dominated by the Mehrotra correction,
+`α²(Δs·Δz + ΔτΔκ) ≤ α m (C + Cκ)` (in particular if it is nonpositive and `m = 0` or the
+correction is nonnegative), then `μ⁺ ≤ (1 − α(1−σ)) μ`; with the Mehrotra centring
+`σ = (1 − α_aff)³`, `α_aff, α ∈ (0,1]`, the factor lies in `[1 − α, 1)`, so `μ⁺ < μ` for
+`μ > 0`. -/
+theorem mu_decrease {k : ℕ} (ν : ℕ) (s z ds dz : Fin k → α) (τ κ dτ dκ mm a aaff C Cκ : α)
+    (ha0 : 0 < a) (ha1 : a ≤ 1) (hf0 : 0 < aaff) (hf1 : aaff ≤ 1)
+    (hμ0 : 0 < calcMu (s ⬝ᵥ z) τ κ ν)
+    (hsum : s ⬝ᵥ dz + z ⬝ᵥ ds
+      = -(s ⬝ᵥ z + mm * C - (ν : α) * (centeringParameter aaff * calcMu (s ⬝ᵥ z) τ κ ν)))
+    (hκ : κ * dτ + τ * dκ
+      = -(τ * κ + mm * Cκ - centeringParameter aaff * calcMu (s ⬝ᵥ z) τ κ ν))
+    (h2 : a ^ 2 * (ds ⬝ᵥ dz + dτ * dκ) ≤ a * mm * (C + Cκ)) :
+    calcMu ((s + a • ds) ⬝ᵥ (z + a • dz)) (τ + a * dτ) (κ + a * dκ) ν
+        ≤ (1 - a * (1 - centeringParameter aaff)) * calcMu (s ⬝ᵥ z) τ κ ν
+    ∧ calcMu ((s + a • ds) ⬝ᵥ (z + a • dz)) (τ + a * dτ) (κ + a * dκ) ν < calcMu (s ⬝ᵥ z) τ κ ν
+    ∧ 1 - a ≤ 1 - a * (1 - centeringParameter aaff) := by
+  have h := mu_decrease_of_sum ν s z ds dz τ κ dτ dκ (centeringParameter aaff) mm a C Cκ hsum hκ h2
+  obtain ⟨f1, f2, _⟩ := mehrotra_factor a aaff ha0 ha1 hf0 hf1
+  refine ⟨h, lt_of_le_of_lt h ?_, f1⟩
+  calc (1 - a * (1 - centeringParameter aaff)) * calcMu (s ⬝ᵥ z) τ κ ν
+      < 1 * calcMu (s ⬝ᵥ z) τ κ ν := mul_lt_mul_of_pos_right f2 hμ0
+    _ = calcMu (s ⬝ᵥ z) τ κ ν := one_mul _
+
+/-- non-vacuity of `mu_update_sum` / `mu_decrease`: one row, `s = z = τ = κ = 1` (`μ = 1`),
+full affine step (`α_aff = 1`, `σ = 0`), `m = 1`, `C = Cκ = 1`, `Δs = Δz = Δτ = Δκ = −1`,
+`α = 1`: `μ⁺ = 0 < μ` -/
+example : calcMu (((fun _ : Fin 1 => (1 : ℝ)) + (1 : ℝ) • fun _ => (-1 : ℝ)) ⬝ᵥ ((fun _ => (1 : ℝ)) + (1 : ℝ) • fun _ => (-1 : ℝ)))
+      (1 + 1 * (-1)) (1 + 1 * (-1)) 1
+    < calcMu ((fun _ : Fin 1 => (1 : ℝ)) ⬝ᵥ fun _ => (1 : ℝ)) 1 1 1 := by
+  have hμ : calcMu ((fun _ : Fin 1 => (1 : ℝ)) ⬝ᵥ fun _ => (1 : ℝ)) 1 1 1 = 1 := by
+    unfold calcMu
+    rw [LawfulFloatLike.ofNat_eq]
+    simp [dotProduct] <;> norm_num
+  have hσ : centeringParameter (1 : ℝ) = 0 := by unfold centeringParameter; norm_num
+  exact (mu_decrease (k := 1) 1 (fun _ => 1) (fun _ => 1) (fun _ => -1) (fun _ => -1) 1 1 (-1) (-1) 1 1 1
+    1 1 (by norm_num) le_rfl (by norm_num) le_rfl (by rw [hμ]; norm_num)
+    (by rw [hμ, hσ]; simp [dotProduct]) (by rw [hμ, hσ]; norm_num)
+    (by simp [dotProduct])).2.1
+
+end progress
+
+section orth
+variable {α : Type} [Field α] {n m : ℕ}
+
+/-- [F] **Orthogonality of the Newton step**: for a step satisfying the linearised system of
+the homogeneous embedding, `Δs·Δz + ΔτΔκ = dᵀPd − (Δx·rdx + Δz·rdz + Δτ·rdτ)` with
+`d = Δx − Δτ·x/τ`; on a residual-free iterate of a linear/conic programme (`P = 0`) the
+second-order term of `mu_update_sum` vanishes and `μ⁺` is *exactly*
+`(1 − α(1−σ)) μ − α m (C + Cκ)/(ν+1)`. -/
+theorem newton_step_orthogonality (P : Matrix (Fin n) (Fin n) α) (hP : Pᵀ = P)
+    (A : Matrix (Fin m) (Fin n) α) (H : Matrix (Fin m) (Fin m) α) (q : Fin n → α) (b : Fin m → α)
+    (x : Fin n → α) (τ κ : α) (rdx : Fin n → α) (rdz : Fin m → α) (rdτ rdκ : α) (c : Fin m → α)
+    (Δ : DenseStep α n m) (hN : IsNewtonStep P A H q b x τ κ rdx rdz rdτ c rdκ Δ) :
+    Δ.ds ⬝ᵥ Δ.dz + Δ.dτ * Δ.dκ
+      = (Δ.dx - Δ.dτ • ((1 / τ) • x)) ⬝ᵥ P *ᵥ (Δ.dx - Δ.dτ • ((1 / τ) • x))
+        - (Δ.dx ⬝ᵥ rdx + Δ.dz ⬝ᵥ rdz + Δ.dτ * rdτ) :=
+  newton_orthogonality P hP A q b ((1 / τ) • x) rdx rdz rdτ Δ.dx Δ.ds Δ.dz Δ.dτ Δ.dκ hN.eq_x hN.eq_z
+    hN.eq_τ
+
+/-- non-vacuity of `newton_step_orthogonality` (an `IsNewtonStep` exists, see the example for
+`reduced_solve_is_newton` below): on that step `Δs·Δz + ΔτΔκ` is given by the identity -/
+example (Δ : DenseStep ℚ 1 1)
+    (hN : IsNewtonStep (0 : Matrix (Fin 1) (Fin 1) ℚ) (1 : Matrix (Fin 1) (Fin 1) ℚ) 1 (fun _ => 1)
+      (fun _ => 1) (fun _ => 0) 1 1 (fun _ => 1) (fun _ => 1) 1 (fun _ => 1) 1 Δ) :
+    Δ.ds ⬝ᵥ Δ.dz + Δ.dτ * Δ.dκ
+      = (Δ.dx - Δ.dτ • ((1 / (1 : ℚ)) • fun _ => (0 : ℚ))) ⬝ᵥ (0 : Matrix (Fin 1) (Fin 1) ℚ) *ᵥ
+          (Δ.dx - Δ.dτ • ((1 / (1 : ℚ)) • fun _ => (0 : ℚ)))
+        - (Δ.dx ⬝ᵥ (fun _ => (1 : ℚ)) + Δ.dz ⬝ᵥ (fun _ => (1 : ℚ)) + Δ.dτ * 1) :=
+  newton_step_orthogonality 0 (by simp) 1 1 _ _ _ 1 1 _ _ 1 1 _ Δ hN
+
+end orth
+
+/-! ## Round 3: the combined step beyond nonnegative cones -/
+section cones
+open Clarabel.Soc
+
+/-- [R] **SOC: the combined step satisfies the linearised complementarity equation exactly.**
+Normalised `w`, `η ≠ 0`, `λ` with `λ₀ ≠ 0`, `res(λ) ≠ 0`, `z = W⁻¹λ` (C13 `soc_NT_identities`;
+`W` symmetric).  `combined_step_rhs` leaves `rhs.s = 1·shift + 1·affine_ds` with
+`affine_ds = λ∘λ` (C13 `soc_affineDs_eq`) and `shift = (W⁻¹Δsᵃ)∘(WΔzᵃ) − σμe`
+(C13 `soc_combinedDsShift_eq`; `Δzᵃ` already scaled by the damping `m`);
+`DefaultKKTSystem::solve` computes `Δs = −1·Δs_from_Δz_offset(rhs.s, z) + (−1)·mul_Hs(Δz)`.  Then,
+for every `Δz`,
+
+  `λ ∘ (WΔz + W⁻¹Δs) = σμe − λ∘λ − (W⁻¹Δsᵃ)∘(WΔzᵃ)`. -/
+theorem soc_combined_step_equation (w0 : ℝ) (w1 : List ℝ) (eta l0 : ℝ) (l1 : List ℝ)
+    (dsa0 : ℝ) (dsa1 : List ℝ) (dza0 : ℝ) (dza1 : List ℝ) (σμ : ℝ) (dz0 : ℝ) (dz1 : List ℝ)
+    (y0 : ℝ) (y1 : List ℝ)
+    (hw : w0 ^ 2 - dotL w1 w1 = 1) (hw0 : 0 < w0) (he : eta ≠ 0) (hl0 : l0 ≠ 0)
+    (hres : l0 ^ 2 - dotL l1 l1 ≠ 0) (hl : l1.length = w1.length) (hsa : dsa1.length = w1.length)
+    (hza : dza1.length = w1.length) (hdz : dz1.length = w1.length) (hy : y1.length = w1.length) :
+    let ll := circOpCore l0 l1 l0 l1
+    let wz := mulWCore y0 y1 dza0 dza1 1 0 w0 w1 eta
+    let ws := mulWinvCore y0 y1 dsa0 dsa1 1 0 w0 w1 eta
+    let sh := circOpCore ws.1 ws.2 wz.1 wz.2
+    let d0 := 1 * (sh.1 + -σμ) + 1 * ll.1
+    let d1 := combL 1 1 sh.2 ll.2
+    let z := mulWinvCore y0 y1 l0 l1 1 0 w0 w1 eta
+    let c := dsFromDzOffsetCore d0 d1 z.1 z.2 l0 l1 w0 w1 eta
+    let h := mulHsCore dz0 dz1 w0 w1 eta
+    let ds0 := (-1) * c.1 + (-1) * h.1
+    let ds1 := combL (-1) (-1) c.2 h.2
+    let p := mulWCore y0 y1 dz0 dz1 1 0 w0 w1 eta
+    let r := mulWinvCore y0 y1 ds0 ds1 1 0 w0 w1 eta
+    circOpCore l0 l1 (p.1 + r.1) (List.zipWith (· + ·) p.2 r.2)
+      = (σμ - ll.1 - sh.1, List.zipWith (fun a b => -a - b) ll.2 sh.2) :=
+  combined_step_equation w0 w1 eta l0 l1 dsa0 dsa1 dza0 dza1 σμ dz0 dz1 y0 y1 hw hw0 he hl0 hres hl hsa
+    hza hdz hy
+
+/-- [R] **SOC: aggregated complementarity of the combined step** (the hypothesis `hsum` of
+`mu_update_sum` for a cone of degree 1): for any right-hand side `d = rhs.s`, `s = Wλ`,
+`z = W⁻¹λ` and the `Δs` of `DefaultKKTSystem::solve`, `⟨s,Δz⟩ + ⟨z,Δs⟩ = −d₀`; with the `d` of
+`soc_combined_step_equation`, `d₀ = ⟨λ,λ⟩ + ⟨W⁻¹Δsᵃ, WΔzᵃ⟩ − σμ = s·z + m Δsᵃ·Δzᵃ − σμ`. -/
+theorem soc_combined_step_aggregated (w0 : ℝ) (w1 : List ℝ) (eta l0 : ℝ) (l1 : List ℝ) (d0 : ℝ)
+    (d1 : List ℝ) (dz0 : ℝ) (dz1 : List ℝ) (y0 : ℝ) (y1 : List ℝ)
+    (hw : w0 ^ 2 - dotL w1 w1 = 1) (hw0 : 0 < w0) (he : eta ≠ 0) (hl0 : l0 ≠ 0)
+    (hres : l0 ^ 2 - dotL l1 l1 ≠ 0) (hl : l1.length = w1.length) (hd : d1.length = w1.length)
+    (hdz : dz1.length = w1.length) (hy : y1.length = w1.length) :
+    let s := mulWCore y0 y1 l0 l1 1 0 w0 w1 eta
+    let z := mulWinvCore y0 y1 l0 l1 1 0 w0 w1 eta
+    let c := dsFromDzOffsetCore d0 d1 z.1 z.2 l0 l1 w0 w1 eta
+    let h := mulHsCore dz0 dz1 w0 w1 eta
+    let ds0 := (-1) * c.1 + (-1) * h.1
+    let ds1 := combL (-1) (-1) c.2 h.2
+    (s.1 * dz0 + dotL s.2 dz1) + (z.1 * ds0 + dotL z.2 ds1) = -d0 :=
+  combined_step_aggregated w0 w1 eta l0 l1 d0 d1 dz0 dz1 y0 y1 hw hw0 he hl0 hres hl hd hdz hy
+
+/-- non-vacuity of the two SOC theorems: `w = (1,(0))` is normalised, `η = 1`, `λ = (2,(1))`
+has `λ₀ ≠ 0` and residual `3 ≠ 0`; all tails have length 1 -/
+example : (1 : ℝ) ^ 2 - dotL [0] [0] = 1 ∧ (0 : ℝ) < 1 ∧ (1 : ℝ) ≠ 0 ∧ (2 : ℝ) ≠ 0
+    ∧ (2 : ℝ) ^ 2 - dotL [1] [1] ≠ 0 ∧ [(1 : ℝ)].length = [(0 : ℝ)].length := by
+  refine ⟨by simp, by norm_num, by norm_num, by norm_num, ?_, rfl⟩
+  simp; norm_num
+
+/-- [F] **Symmetric cones, abstract form (PSD).**  For any cone whose operators satisfy the
+Nesterov–Todd contracts — `W` additive, `mul_Hs = W∘W`, `W⁻¹W = I`, `λ∘·` odd, `λ∘(λ\d) = d`,
+`Δs_from_Δz_offset(d) = W(λ\d)`; for the PSD cone these are C13's `psd_mulHs_eq`, `psd_W_Winv`,
+`psd_circ_lamInv`, `psd_dsOffset_eq` (conditional on the LAPACK contracts) — the step
+`Δs = −(mul_Hs Δz + Δs_from_Δz_offset(d))` of `DefaultKKTSystem::solve` satisfies
+`λ∘(WΔz + W⁻¹Δs) = −d`. -/
+theorem symmetric_cone_combined_step {V : Type} [AddCommGroup V] (W Winv Hs : V → V)
+    (circ : V → V → V) (invc off : V → V) (lam d dz : V)
+    (hW : ∀ a b, W (a + b) = W a + W b) (hWneg : ∀ a, W (-a) = -W a)
+    (hHs : ∀ x, Hs x = W (W x)) (hWi : ∀ x, Winv (W x) = x)
+    (hcn : ∀ a, circ lam (-a) = -circ lam a) (hci : circ lam (invc d) = d)
+    (hoff : off d = W (invc d)) :
+    circ lam (W dz + Winv (-(Hs dz + off d))) = -d :=
+  symmetric_cone_complementarity W Winv Hs circ invc off lam d dz hW hWneg hHs hWi hcn hci hoff
+
+/-- non-vacuity of `symmetric_cone_combined_step`: `V = ℝ`, `W x = 2x`, `λ = 3` -/
+example : ∃ (W Winv Hs : ℝ → ℝ) (circ : ℝ → ℝ → ℝ) (invc off : ℝ → ℝ) (lam d : ℝ),
+    (∀ a b, W (a + b) = W a + W b) ∧ (∀ a, W (-a) = -W a) ∧ (∀ x, Hs x = W (W x))
+    ∧ (∀ x, Winv (W x) = x) ∧ (∀ a, circ lam (-a) = -circ lam a) ∧ circ lam (invc d) = d
+    ∧ off d = W (invc d) :=
+  ⟨fun x => 2 * x, fun x => x / 2, fun x => 4 * x, fun a b => a * b, fun d => d / 3,
+    fun d => 2 * (d / 3), 3, 1, fun a b => by ring, fun a => by ring, fun x => by ring,
+    fun x => by ring, fun a => by ring, by norm_num, rfl⟩
+
+/-- [F] **Exponential and power cones: the `Δs` of the combined step.**  With
+`affine_ds = s`, `combined_ds_shift = σμ·g(z) − η` (C14 `combined_ds_shift_eq`; `η` the
+third-order correction built from the affine step), `Δs_from_Δz_offset` a copy and
+`Δs = −1·rhs.s + (−1)·(Hs Δz)` (`Lemmas.nonsymDs`, the operation order of the code),
+
+  `Δs = −Hs Δz − (s + σμ g(z)) + η`,
+
+for the dual scaling `Hs = μH(z)` (`Nonsym.useDualScaling`, `(μH)Δz = μ·(HΔz)`) as well as for
+the primal-dual scaling block. -/
+theorem nonsym_combined_ds (a μ σμ : ℝ) (Hs H Hd : Sym3 ℝ) (grad s z dz dza dsa : V3 ℝ) :
+    (nonsymDs Hs s (Exp.combinedDsShift H grad z dza dsa σμ) dz
+      = (-(Hs.mul dz).1 - (s.1 + σμ * grad.1) + (Exp.higherCorrection H z dsa dza).1,
+         -(Hs.mul dz).2.1 - (s.2.1 + σμ * grad.2.1) + (Exp.higherCorrection H z dsa dza).2.1,
+         -(Hs.mul dz).2.2 - (s.2.2 + σμ * grad.2.2) + (Exp.higherCorrection H z dsa dza).2.2))
+    ∧ (nonsymDs Hs s (Pow.combinedDsShift a H grad z dza dsa σμ) dz
+      = (-(Hs.mul dz).1 - (s.1 + σμ * grad.1) + (Pow.higherCorrection a H z dsa dza).1,
+         -(Hs.mul dz).2.1 - (s.2.1 + σμ * grad.2.1) + (Pow.higherCorrection a H z dsa dza).2.1,
+         -(Hs.mul dz).2.2 - (s.2.2 + σμ * grad.2.2) + (Pow.higherCorrection a H z dsa dza).2.2))
+    ∧ (Nonsym.useDualScaling μ Hd).mul dz
+        = (μ * (Hd.mul dz).1, μ * (Hd.mul dz).2.1, μ * (Hd.mul dz).2.2) :=
+  ⟨nonsymDs_exp Hs H grad s z dz dza dsa σμ, nonsymDs_pow a Hs H grad s z dz dza dsa σμ,
+    mul_useDualScaling μ Hd dz⟩
+
+end cones
+
+/-! ## Round 3: further corollaries on the executable functions -/
+section array2
+variable {n m : ℕ}
+
+/-- [R] **`residual_contraction` on the executable functions, affine direction**: the pass
+`update_scaling → affine_step_rhs → solve(Affine) → add_step(α)` (`σ = 0`: what the predictor
+would do on its own) multiplies `(rx, rz)` by `1 − α` and `rτ` likewise up to the exact
+`P`-remainder. -/
+theorem residual_contraction_affine_array (P : Matrix (Fin n) (Fin n) ℝ) (hP : Pᵀ = P)
+    (A : Matrix (Fin m) (Fin n) ℝ) (Pc : Csc ℝ)
+    (hqf : ∀ a b : Array ℝ, a.size = n → b.size = n →
+      KktSystem.quadForm Pc a b = .ok (toFn a n ⬝ᵥ P *ᵥ toFn b n))
+    (mask : List Bool) (q b rx rz : Array ℝ) (rτ : ℝ) (vars rhs : Vars ℝ) (a : ℝ)
+    (x1 z1 x2 z2 : Array ℝ)
+    (hm : mask.length = m) (hq : q.size = n) (hb : b.size = m) (hvx : vars.x.size = n)
+    (hvs : vars.s.size = m) (hvz : vars.z.size = m) (hrx : rx.size = n) (hrz : rz.size = m)
+    (hx1 : x1.size = n) (hz1 : z1.size = m) (hx2 : x2.size = n)
+    (hz2 : z2.size = m) (hτ : vars.τ ≠ 0) (hint : NNInterior mask vars.s vars.z m)
+    (hrX : toFn rx n = resX P A (toFn q n) (toFn vars.x n) (toFn vars.z m) vars.τ)
+    (hrZ : toFn rz m = resZ A (toFn b m) (toFn vars.x n) (toFn vars.s m) vars.τ)
+    (hrT : rτ = resT P (toFn q n) (toFn b m) (toFn vars.x n) (toFn vars.z m) vars.τ vars.κ)
+    (hrhs : rhs = affineStepRhs mask rx rz rτ (updateScaling mask vars.s vars.z).1 vars)
+    (h1x : P *ᵥ toFn x1 n + Aᵀ *ᵥ toFn z1 m = toFn rhs.x n)
+    (h1z : A *ᵥ toFn x1 n - Hnn mask vars.s vars.z m *ᵥ toFn z1 m
+      = dsConstFn mask vars rhs true m - toFn rhs.z m)
+    (h2x : P *ᵥ toFn x2 n + Aᵀ *ᵥ toFn z2 m = -toFn q n)
+    (h2z : A *ᵥ toFn x2 n - Hnn mask vars.s vars.z m *ᵥ toFn z2 m = toFn b m)
+    (hden : KktSystem.tauDen vars.κ vars.τ (toFn q n ⬝ᵥ toFn x2 n) (toFn b m ⬝ᵥ toFn z2 m)
+        (((-1 : ℝ) • toFn x2 n + (1 : ℝ) • ((1 / vars.τ) • toFn vars.x n)) ⬝ᵥ
+          P *ᵥ ((-1 : ℝ) • toFn x2 n + (1 : ℝ) • ((1 / vars.τ) • toFn vars.x n)))
+        (toFn x2 n ⬝ᵥ P *ᵥ toFn x2 n) ≠ 0) :
+    ∃ lhs wx wz,
+      KktSystem.solveNN Pc mask (updateScaling mask vars.s vars.z).2 q b vars rhs true x1 z1 x2 z2
+        = .ok (lhs, wx, wz)
+      ∧ (vars.τ + a * lhs.τ ≠ 0 →
+        resX P A (toFn q n) (toFn (addStep vars lhs a).x n) (toFn (addStep vars lhs a).z m)
+            (addStep vars lhs a).τ = (1 - a) • toFn rx n
+        ∧ resZ A (toFn b m) (toFn (addStep vars lhs a).x n) (toFn (addStep vars lhs a).s m)
+            (addStep vars lhs a).τ = (1 - a) • toFn rz m
+        ∧ resT P (toFn q n) (toFn b m) (toFn (addStep vars lhs a).x n)
+            (toFn (addStep vars lhs a).z m) (addStep vars lhs a).τ (addStep vars lhs a).κ
+          = (1 - a) * rτ
+            + a ^ 2 * ((toFn lhs.x n - lhs.τ • ((1 / vars.τ) • toFn vars.x n)) ⬝ᵥ
+                P *ᵥ (toFn lhs.x n - lhs.τ • ((1 / vars.τ) • toFn vars.x n)))
+              / (vars.τ + a * lhs.τ)) := by
+  obtain ⟨ax, az, aτ', _, has, _⟩ := affineStepRhs_dense mask rx rz rτ vars hm hvs hvz hint
+  simp only [← hrhs] at ax az aτ' has
+  obtain ⟨lhs, wx, wz, hrun, s1, s2, s3, hN⟩ := reduced_solve_is_newton_array P hP A Pc hqf mask q b
+    vars rhs true x1 z1 x2 z2 hm hq hb hvx hvs hvz (by rw [ax]; exact hrx) has (by rw [az]; exact hrz)
+    hx1 hz1 hx2 hz2 hτ hint h1x h1z h2x h2z hden
+  refine ⟨lhs, wx, wz, hrun, fun hτ' => ?_⟩
+  obtain ⟨_, _, _, ex, es, ez, eτ, eκ⟩ := addStep_dense (n := n) (m := m) vars lhs a hvx s1 hvs s2 hvz s3
+  rw [ax, az, aτ', hrX, hrZ, hrT] at hN
+  have hN' : IsNewtonStep P A (Hnn mask vars.s vars.z m) (toFn q n) (toFn b m) (toFn vars.x n) vars.τ
+      vars.κ ((1 - (0 : ℝ)) • resX P A (toFn q n) (toFn vars.x n) (toFn vars.z m) vars.τ)
+      ((1 - (0 : ℝ)) • resZ A (toFn b m) (toFn vars.x n) (toFn vars.s m) vars.τ)
+      ((1 - (0 : ℝ)) * resT P (toFn q n) (toFn b m) (toFn vars.x n) (toFn vars.z m) vars.τ vars.κ)
+      (dsConstFn mask vars rhs true m) rhs.κ ⟨toFn lhs.x n, toFn lhs.s m, toFn lhs.z m, lhs.τ, lhs.κ⟩ := by
+    simpa only [sub_zero, one_smul, one_mul] using hN
+  have := residual_contraction P hP A (Hnn mask vars.s vars.z m) (toFn q n) (toFn b m) (toFn vars.x n)
+    (toFn vars.s m) (toFn vars.z m) vars.τ vars.κ 0 a (dsConstFn mask vars rhs true m) rhs.κ
+    ⟨toFn lhs.x n, toFn lhs.s m, toFn lhs.z m, lhs.τ, lhs.κ⟩ hτ hτ' hN'
+  simp only [sub_zero, mul_one] at this
+  rw [ex, es, ez, eτ, eκ, hrX, hrZ, hrT]
+  exact this
+
+/-- [F] **`centering_range` on the arrays of the `traj.sigma_mu` channel**: every entry of the
+recomputed `σ` array (`aaff.map centeringParameter`, as the driver does) is `(1 − α_aff)³ ∈ [0,1]`
+when the recorded affine step lengths lie in `[0,1]`, and the damping array is
+`m₁ = α_aff,1`, `mⱼ = 1` for `j > 1`. -/
+theorem centering_range_array (aaff : Array ℝ) (h : ∀ j (hj : j < aaff.size), 0 ≤ aaff[j] ∧ aaff[j] ≤ 1) :
+    (aaff.map centeringParameter).size = aaff.size
+    ∧ ∀ j (hj : j < aaff.size),
+        (aaff.map centeringParameter)[j]'(by simpa using hj) = (1 - aaff[j]) ^ 3
+        ∧ 0 ≤ (aaff.map centeringParameter)[j]'(by simpa using hj)
+        ∧ (aaff.map centeringParameter)[j]'(by simpa using hj) ≤ 1
+        ∧ mehrotraM (j + 1) aaff[j] = if j = 0 then aaff[j] else 1 := by
+  refine ⟨by simp, fun j hj => ?_⟩
+  obtain ⟨h0, h1⟩ := h j hj
+  obtain ⟨e, p0, _, p1, pm⟩ := centering_range aaff[j] aaff[j] h0 le_rfl h1
+  simp only [Array.getElem_map]
+  refine ⟨e, p0, p1, ?_⟩
+  rw [pm]
+  by_cases hj0 : j = 0
+  · simp [hj0]
+  · have : j + 1 > 1 := by omega
+    simp [hj0, this]
+
+/-- non-vacuity of `centering_range_array`: one recorded affine step length `1/2` -/
+example : ∀ j (hj : j < (#[(1 / 2 : ℝ)] : Array ℝ).size),
+    0 ≤ (#[(1 / 2 : ℝ)] : Array ℝ)[j] ∧ (#[(1 / 2 : ℝ)] : Array ℝ)[j] ≤ 1 := by
+  intro j hj
+  have : j = 0 := by simp at hj; omega
+  subst this
+  constructor <;> norm_num
+
+/-- non-vacuity of `residual_contraction_affine_array`: the data of the example above with the
+affine right-hand side (`Δs_const_term = s`) -/
+example (a : ℝ) : ∃ lhs wx wz,
+    KktSystem.solveNN exPc [true] (updateScaling [true] exVars.s exVars.z).2 #[] #[1] exVars
+      (affineStepRhs [true] #[] #[0] 2 (updateScaling [true] exVars.s exVars.z).1 exVars) true #[]
+      #[toFn (affineStepRhs [true] #[] #[0] 2 (updateScaling [true] exVars.s exVars.z).1 exVars).z 1 0
+        - dsConstFn [true] exVars
+            (affineStepRhs [true] #[] #[0] 2 (updateScaling [true] exVars.s exVars.z).1 exVars) true 1 0]
+      #[] #[-1] = .ok (lhs, wx, wz) := by
+  set rhs := affineStepRhs [true] #[] #[0] 2 (updateScaling [true] exVars.s exVars.z).1 exVars with hr
+  have hrX : toFn (#[] : Array ℝ) 0 = resX (0 : Matrix (Fin 0) (Fin 0) ℝ) (0 : Matrix (Fin 1) (Fin 0) ℝ)
+      (toFn #[] 0) (toFn exVars.x 0) (toFn exVars.z 1) exVars.τ := by funext i; exact i.elim0
+  have hrZ : toFn (#[0] : Array ℝ) 1 = resZ (0 : Matrix (Fin 1) (Fin 0) ℝ) (toFn #[1] 1) (toFn exVars.x 0)
+      (toFn exVars.s 1) exVars.τ := by
+    funext i; have : i = 0 := Subsingleton.elim _ _; subst this; simp [resZ, toFn, exVars]
+  have hrT : (2 : ℝ) = resT (0 : Matrix (Fin 0) (Fin 0) ℝ) (toFn #[] 0) (toFn #[1] 1) (toFn exVars.x 0)
+      (toFn exVars.z 1) exVars.τ exVars.κ := by
+    simp [resT, toFn, exVars, Matrix.mulVec, dotProduct]; norm_num
+  have h1z : (0 : Matrix (Fin 1) (Fin 0) ℝ) *ᵥ toFn #[] 0
+      - Hnn [true] exVars.s exVars.z 1 *ᵥ toFn #[toFn rhs.z 1 0 - dsConstFn [true] exVars rhs true 1 0] 1
+      = dsConstFn [true] exVars rhs true 1 - toFn rhs.z 1 := by
+    funext i; have : i = 0 := Subsingleton.elim _ _; subst this
+    simp [Hnn, maskFn, toFn, exVars]
+  have h2z : (0 : Matrix (Fin 1) (Fin 0) ℝ) *ᵥ toFn #[] 0
+      - Hnn [true] exVars.s exVars.z 1 *ᵥ toFn #[-1] 1 = toFn #[1] 1 := by
+    funext i; have : i = 0 := Subsingleton.elim _ _; subst this
+    simp [Hnn, maskFn, toFn, exVars]
+  have hden : KktSystem.tauDen exVars.κ exVars.τ (toFn #[] 0 ⬝ᵥ toFn #[] 0) (toFn #[1] 1 ⬝ᵥ toFn #[-1] 1)
+      (((-1 : ℝ) • toFn #[] 0 + (1 : ℝ) • ((1 / exVars.τ) • toFn exVars.x 0)) ⬝ᵥ
+        (0 : Matrix (Fin 0) (Fin 0) ℝ) *ᵥ ((-1 : ℝ) • toFn #[] 0 + (1 : ℝ) • ((1 / exVars.τ) • toFn exVars.x 0)))
+      (toFn #[] 0 ⬝ᵥ (0 : Matrix (Fin 0) (Fin 0) ℝ) *ᵥ toFn #[] 0) ≠ 0 := by
+    simp [KktSystem.tauDen, toFn, exVars, dotProduct]
+  obtain ⟨lhs, wx, wz, h, _⟩ := residual_contraction_affine_array (n := 0) (m := 1) 0 (by simp) 0 exPc
+    exHqf [true] #[] #[1] #[] #[0] 2 exVars rhs a #[] _ #[] #[-1]
+    rfl rfl rfl rfl rfl rfl rfl rfl rfl rfl rfl rfl (by simp [exVars]) exInt hrX hrZ hrT rfl
+    (by funext i; exact i.elim0) h1z (by funext i; exact i.elim0) h2z hden
+  exact ⟨lhs, wx, wz, h⟩
+
+end array2
 
 end Clarabel.C06
